@@ -320,14 +320,11 @@ def rule_fanout(ctx):
     # guards: the touched loop runs whenever touched is non-empty; the mempool loop whenever height changed and statuses exist
     for lp, need, label in ((tl, {tparam}, 'touched loop guard'), (ml, {hparam, 'self.mempool_statuses'}, 'mempool loop guard')):
         conds = pr.guard_conditions(lp, f.node)        # `if not X: return` guards read as "under X"
-        ok = True
-        for t, b, _p in conds:
-            if not b:
-                ok = False
-                continue
-            disj = t.values if isinstance(t, ast.BoolOp) and isinstance(t.op, ast.Or) else [t]
-            if not any({norm(x) for x in pr.conjuncts(dj)} <= need for dj in disj):
-                ok = False
+        # propositionally: NEED implies every governing condition (however the guard is spelt - nested, early return,
+        # De Morgan'd): NEED and G is the same function as NEED
+        need_src = ' and '.join(f'({x})' for x in sorted(need))
+        g_src = ' and '.join((f'({norm(t)})' if b else f'(not ({norm(t)}))') for t, b, _p in conds) or 'True'
+        ok = q.bool_equiv(f'({need_src}) and ({g_src})', need_src)
         ctx.check(ok, 'C07.FANOUT', ctx.key(f, lp, label),
                   f'the loop runs whenever {" and ".join(sorted(need))} holds',
                   f'the loop can be skipped although {" and ".join(sorted(need))} holds: {[norm(c[0]) for c in conds]}', loc=ctx.loc(f, lp))
